@@ -18,7 +18,7 @@ TIERS = {
     'thorough': {'runs': 1500000, 'chunk': 500, 'wall_cap': 850, 'min_budget': 60},
 }
 RULE = ('case = history of 1-60 (thorough: up to 150) public edit operations with integer selectors resolved against the reference model; well-formed use: no self-loops, no cycles, '
-        'at most one driver per fork, explicit pins only on free positions (forks: only the next output position), nodes removed after their lines, one port entry per node; '
+        'at most one driver per fork, explicit pins only on free positions (forks: only the next output position), nodes removed after their lines, one port entry per node; calls that must be rejected (duplicate name, implementation with too few ports) are issued too and must leave the graph unchanged; objects that copies were taken from are kept and must stay unchanged; 2 % of the histories contain a fork with 130-300 branches; '
         'non-trivial iff the history contains a removal that moved an element into a hole (swap-with-last) followed by at least one later edit, or a restore/copy in mid-history followed by further edits; '
         'distinct = distinct case digests')
 REAL_VS_STUB = {'real': ['kyupy.circuit: GrowingList, IndexList, Node, Line, Circuit (eliminate_1to1_forks, substitute, remove_dangling_nodes, copy, __getstate__/__setstate__, stats)', 'pickle of Circuit', 'kyupy.bench.parse (provider of implementation circuits, trusted)'],
